@@ -3,7 +3,6 @@ package h
 import (
 	"bytes"
 	"fmt"
-	"reflect"
 	"regexp"
 	"strings"
 	"testing"
@@ -304,11 +303,13 @@ func checkAsmRun(res *Result, r *asmRun, tc *textCase, cfg gp.SimulatorConfig, w
 	for _, l := range r.out.Leaked {
 		res.add("C05", "C05 leak "+siteKey(l.Name)+" blocked at "+siteKey(l.Site)+"/"+l.Kind, map[string]any{"run": which, "task": l.Name, "site": l.Site})
 	}
-	zero := reflect.DeepEqual(r.w, gi.WarriorData{})
+	zero := r.w.Name == "" && r.w.Author == "" && r.w.Strategy == "" && len(r.w.Code) == 0 && r.w.Start == 0
 	if r.err != nil && !zero {
 		res.add("C05", "C05 neither-nor-both error together with a warrior", map[string]any{"run": which, "err": r.err.Error(), "warrior": warIString(r.w)})
 	}
-	if r.err == nil && r.w.Code == nil {
+	if r.err == nil && len(r.w.Code) == 0 && reLeadingInstr.Match(r.rd.Data()) {
+		// nil and empty code are the same thing to a Go caller; an empty
+		// result is only "neither" when the text visibly starts with an instruction
 		res.add("C05", "C05 neither-nor-both no error and no warrior", map[string]any{"run": which})
 	}
 	if r.err == nil {
@@ -640,3 +641,8 @@ func identifiers(text []byte) []string {
 	}
 	return out
 }
+
+// reLeadingInstr matches a text whose first non-blank, non-comment line is a
+// plain instruction (optionally labelled), so that assembling it successfully
+// must produce at least one instruction.
+var reLeadingInstr = regexp.MustCompile(`(?i)\A(?:[ \t]*(?:;[^\n]*)?\r?\n)*[ \t]*(?:[a-z_][a-z0-9_]*:?[ \t]+)?(?:mov|add|sub|jmp|jmz|jmn|djn|cmp|slt|spl|dat)(?:\.(?:ab|ba|a|b|f|x|i))?[ \t]+[#$@<]?-?[0-9]+[ \t]*,[ \t]*[#$@<]?-?[0-9]+[ \t]*\r?\n`)
